@@ -101,7 +101,7 @@ type c09 struct{}
 func (c09) ID() string    { return "C09" }
 func (c09) Level() string { return "exploration" }
 func (c09) Rule() string {
-	return "cases = histories over {Solve, AppendClause(c)}: base problems (empty over 0..2 variables, T2 with <=1 clause, S3 with <=2 clauses) x 1 appended constraint from the full alphabet (clauses of length 1..3 incl. repeated literals, tautologies and one fresh variable; NewCardClause with every degree; NewPBClause with weights in {1,2} and every degree 1..sum+1) x Solve placements; 2 appended constraints from a reduced alphabet x all 4 Solve placements; 3 appended short clauses. Each history runs once per heuristic choice list (<=1 deviation over all Solve calls of the history). Oracle: truth table of base AND everything appended so far, after every Solve; Unsat is sticky. Non-trivial = some Solve after an append had to search (decision or conflict) or the verdict changed along the history."
+	return "cases = histories over {Solve, AppendClause(c)}: base problems (empty over 0..2 variables, T2 with <=1 clause, S3 with <=2 clauses) x 1 appended constraint from the full alphabet (clauses of length 1..3 incl. repeated literals, tautologies and one fresh variable; NewCardClause with every degree; NewPBClause with weights in {1,2} and every degree 1..sum+1) x Solve placements; 2 appended constraints from a reduced alphabet x all 4 Solve placements; 3 appended short clauses; a seeded catalogue of random formulas fed clause by clause to a live solver (with a cardinality and a PB constraint in the middle). Each history runs once per heuristic choice list (<=1 deviation over all Solve calls of the history). Oracle: truth table of base AND everything appended so far, after every Solve; Unsat is sticky. Non-trivial = some Solve after an append had to search (decision or conflict) or the verdict changed along the history."
 }
 func (c09) Assumptions() []string {
 	return []string{"truth-table reference is correct", "appended constraints are built by NewClause/NewCardClause/NewPBClause with arguments in their documented domain (degree >= 1, cardinality <= length)"}
@@ -186,6 +186,44 @@ func (c09) Enumerate(tier string, seed int64, yield func(string, core.Case) bool
 					}
 				}
 			}
+		}
+	}
+	// H4: a random formula fed clause by clause to a live solver: base = its first half, the rest is
+	// appended one clause at a time with a Solve after every second append (seeded catalogue)
+	nr := 150
+	if thorough {
+		nr = 1500
+	}
+	g := &lcg{s: uint64(seed)*69621 + 5}
+	for sd := 0; sd < nr; sd++ {
+		n := 5 + int(g.next()%4)
+		m := 2*n + int(g.next()%uint64(2*n))
+		f := rand3cnf(g.next(), n, m)
+		half := len(f) / 2
+		h := HistCase{Base: cnfProb("slicenb", f[:half], n, n), Dev: 1}
+		for i, c := range f[half:] {
+			cc := Con{T: "cl", L: append([]int{}, c...)}
+			h.Ops = append(h.Ops, Op{Op: "A", C: &cc})
+			if i%2 == 1 {
+				h.Ops = append(h.Ops, Op{Op: "S"})
+			}
+		}
+		h.Ops = append(h.Ops, Op{Op: "S"})
+		if !yield("H4", h) {
+			return
+		}
+		// the same history with a cardinality and a PB constraint in the middle
+		h2 := HistCase{Base: h.Base, Dev: 0}
+		for i, op := range h.Ops {
+			h2.Ops = append(h2.Ops, op)
+			if i == len(h.Ops)/2 {
+				k1 := Con{T: "card", L: []int{1, -2, 3}, K: 2}
+				k2 := Con{T: "ge", L: []int{-1, 2, 4}, W: []int{2, 1, 1}, K: 2}
+				h2.Ops = append(h2.Ops, Op{Op: "A", C: &k1}, Op{Op: "S"}, Op{Op: "A", C: &k2})
+			}
+		}
+		if !yield("H4+pb", h2) {
+			return
 		}
 	}
 	// H3: three appended short clauses over 2 variables (+ unit clauses on a fresh third), solve after each
